@@ -224,11 +224,11 @@ def hash_tree(root):
 FRUGAL = os.path.join(vlib.BIN, "frugal")
 
 
-def run_frugal(cwd, file_arg, gen, out_arg, out_abs):
+def run_frugal(cwd, file_arg, gen, out_arg, out_abs, recurse=True):
     """One compilation in a fresh process. Returns (rc, hashes or message)."""
     shutil.rmtree(out_abs, ignore_errors=True)
     try:
-        p = subprocess.run([FRUGAL, "-r", "-gen", gen, "-out", out_arg, file_arg], cwd=cwd,
+        p = subprocess.run([FRUGAL] + (["-r"] if recurse else []) + ["-gen", gen, "-out", out_arg, file_arg], cwd=cwd,
                            capture_output=True, timeout=120)
     except subprocess.TimeoutExpired:
         return 124, "timeout"
@@ -400,11 +400,26 @@ def run(ctx, br):
     order = [(p, g) for p in programs for g in gens]
     rng.shuffle(order)
     order = order[:(12 if quick else 60)]
-    for n, (prog, gen) in enumerate(order + order[::-1]):
+    # a few non-recursive compiles in between (Recurse must not leak from the compile before);
+    # their reference output comes from a fresh non-recursive process
+    nonrec = order[:3]
+    for prog, gen in nonrec:
+        o = os.path.join(inproc, "nonrec_base", "p%d_%s" % (prog["id"], hashlib.sha256(gen.encode()).hexdigest()[:6]))
+        os.makedirs(os.path.dirname(o), exist_ok=True)
+        rc, res = run_frugal(prog["rootA"], prog["main"], gen, o, o, recurse=False)
+        n_eval += 1
+        if rc != 0:
+            raise RuntimeError("non-recursive compile failed: %s" % res)
+        base[(prog["id"], gen, "nonrec")] = res
+    full = [(p, g, True) for p, g in order]
+    for i, (p, g) in enumerate(nonrec):
+        full.insert(2 + 3 * i, (p, g, False))
+    full = full + full[::-1]
+    for n, (prog, gen, rec) in enumerate(full):
         o = os.path.join(inproc, "j%d" % n)
-        seq_jobs.append({"file": os.path.join(prog["rootA"], prog["main"]), "gen": gen, "out": o, "recurse": True,
+        seq_jobs.append({"file": os.path.join(prog["rootA"], prog["main"]), "gen": gen, "out": o, "recurse": rec,
                          "cwd": work})
-        seq_keys.append((prog["id"], gen))
+        seq_keys.append((prog["id"], gen) if rec else (prog["id"], gen, "nonrec"))
     rc, out, err = vlib.sh([os.path.join(vlib.BIN, "vh_c19")], inp=(json.dumps({"op": "compile_seq", "jobs": seq_jobs}) + "\n").encode(),
                            timeout=900)
     if rc != 0:
@@ -415,7 +430,7 @@ def run(ctx, br):
     glob_cases = []
     for n, (key, jr, sj) in enumerate(zip(seq_keys, seq["results"], seq_jobs)):
         if n in (0, 1, len(seq_jobs) // 2, len(seq_jobs) - 1) and jr.get("globals"):
-            ghist = [[[os.path.dirname(j["file"]).encode(), j["gen"].encode(), j["out"].encode(), b".", 1],
+            ghist = [[[os.path.dirname(j["file"]).encode(), j["gen"].encode(), j["out"].encode(), b".", 1 if j["recurse"] else 0],
                      [f.encode() for f in sorted(programs[k[0]]["files"])]]
                     for j, k in zip(seq_jobs[:n + 1], seq_keys[:n + 1])]
             gl = jr["globals"]
@@ -436,7 +451,7 @@ def run(ctx, br):
             ctx.violation("C19 oracle: output of a compile that follows other compiles in the same process differs "
                           "from a fresh process (global state not reset)",
                           {"gen": key[1], "differing_files": d[:10], "program": programs[key[0]]["files"],
-                           "sequence": [(j["gen"], os.path.basename(os.path.dirname(j["file"]))) for j in seq_jobs[:seq_jobs.index(sj) + 1]][-6:]})
+                           "sequence": [(j["gen"], j["recurse"], os.path.basename(os.path.dirname(j["file"]))) for j in seq_jobs[:seq_jobs.index(sj) + 1]][-6:]})
 
     # ---- correspondence: observations of the real compiler against the model --------------------
     reqs, req_info = [], []
